@@ -217,4 +217,44 @@ theorem mentioned_reduce (K : Var → Nat) (ev : List (Var × Nat)) (fs : List F
   unfold keepScope
   exact List.mem_filter.mpr ⟨hvf, by simpa using hv⟩
 
+
+/-! ### normalised leaves sum out to one -/
+
+/-- a normalised CPD of a variable that occurs nowhere else sums out to 1 -/
+theorem barren_leaf (K : Var → Nat) (c : Factor) (fs : List Factor) (u : Var)
+    (hnorm : ∀ a, Bounded K a → sumVar K u c.den a = 1) (hu : ∀ f ∈ fs, u ∉ f.scope)
+    (a : Asg) (ha : Bounded K a) :
+    sumVar K u (jointDen (c :: fs)) a = jointDen fs a := by
+  have : sumVar K u (jointDen (c :: fs)) a = sumVar K u (fun b => jointDen fs b * c.den b) a := by
+    congr 1; funext b; rw [jointDen_cons, mul_comm]
+  rw [this, sumVar_mul_const K u (jointDen fs) c.den (fun b x => jointDen_upd_notin u fs hu b x) a,
+    hnorm a ha, mul_one]
+
+/-- eliminating, one after another, variables whose (normalised) CPD is the only remaining
+    factor that mentions them removes those CPDs from the product -/
+theorem leaves_sum_out (K : Var → Nat) (fs : List Factor) :
+    ∀ (leaves : List (Var × Factor)),
+      (∀ p ∈ leaves, ∀ a, Bounded K a → sumVar K p.1 p.2.den a = 1) →
+      (∀ p ∈ leaves, ∀ f ∈ fs, p.1 ∉ f.scope) →
+      (leaves.Pairwise (fun p q => p.1 ∉ q.2.scope)) →
+      ∀ a, Bounded K a →
+        sumOut K (leaves.map (·.1)) (jointDen (leaves.map (·.2) ++ fs)) a = jointDen fs a
+  | [], _, _, _, a, _ => rfl
+  | p :: ps, hnorm, hfresh, hpair, a, ha => by
+    have hp := List.pairwise_cons.mp hpair
+    simp only [List.map_cons, List.cons_append, sumOut]
+    have ih := leaves_sum_out K fs ps
+      (fun q hq => hnorm q (List.mem_cons_of_mem _ hq))
+      (fun q hq => hfresh q (List.mem_cons_of_mem _ hq)) hp.2
+    rw [← ih a ha]
+    apply sumOut_congr
+    · intro b hb
+      apply barren_leaf K p.2 _ p.1 (hnorm p List.mem_cons_self) _ b hb
+      intro f hf
+      rcases List.mem_append.mp hf with h | h
+      · obtain ⟨q, hq, rfl⟩ := List.mem_map.mp h
+        exact hp.1 q hq
+      · exact hfresh p List.mem_cons_self f h
+    · exact ha
+
 end PgmVerif
